@@ -16,6 +16,7 @@ import (
 	"errors"
 	"fmt"
 	"math/big"
+	"sort"
 	"sync"
 	"time"
 
@@ -180,6 +181,14 @@ type built struct {
 	dec    func(blob, secret []byte) (any, error)
 	cert   *smx509.Certificate // cfca
 	symKey []byte              // env: the SM4 key the encoder drew
+
+	// decoding through ONE parsed object that is reused over several attempts
+	// (decode-repeat histories): prep parses the caller-owned bytes once,
+	// decP decodes from that object, snap serialises everything of the object
+	// the decoder must leave untouched. Defaults: the byte slice itself.
+	prep func(blob []byte) any
+	decP func(obj any, secret []byte) (any, error)
+	snap func(obj any) []byte
 }
 
 var (
@@ -385,6 +394,21 @@ func buildContainer(s cspec) *built {
 			}
 			return parse(der)
 		}
+		b.prep = func(blob []byte) any {
+			blk, _ := pem.Decode(blob)
+			if blk == nil {
+				panic("c14 harness: generated PEM does not parse")
+			}
+			return blk
+		}
+		b.decP = func(obj any, secret []byte) (any, error) {
+			der, err := smx509.DecryptPEMBlock(obj.(*pem.Block), secret)
+			if err != nil {
+				return nil, err
+			}
+			return parse(der)
+		}
+		b.snap = func(obj any) []byte { return snapPEM(obj.(*pem.Block)) }
 	case "env":
 		wrap := makeKey("sm2-uniform", gen.Mix(s.ESeed, 0x3e7))
 		wk := wrap.priv.(*sm2.PrivateKey)
@@ -392,6 +416,20 @@ func buildContainer(s cspec) *built {
 		b.symKey = gen.Fill(s.ESeed, 16) // first multi-byte read of the encoder
 		b.secret, b.auth = ref.Bytes32(wrap.d), authKeyPair
 		b.dec = decEnveloped
+		b.prep = func(blob []byte) any { return &envObj{blob: blob, keys: map[string]*sm2.PrivateKey{}} }
+		b.decP = func(obj any, secret []byte) (any, error) {
+			o := obj.(*envObj)
+			w := o.keys[string(secret)]
+			if w == nil {
+				var err error
+				if w, err = sm2.NewPrivateKey(secret); err != nil {
+					return nil, fmt.Errorf("c14 harness: bad unwrapping scalar: %v", err)
+				}
+				o.keys[string(secret)] = w
+			}
+			return nilIfErr(sm2.ParseEnvelopedPrivateKey(w, o.blob))
+		}
+		b.snap = func(obj any) []byte { return append([]byte{}, obj.(*envObj).blob...) }
 	case "cfca":
 		b.cert = certFor(&ki.priv.(*sm2.PrivateKey).PublicKey, s.KSeed)
 		b.blob = must(cfca.MarshalSM2(pw, ki.priv.(*sm2.PrivateKey), b.cert))
@@ -411,7 +449,34 @@ func buildContainer(s cspec) *built {
 	if b.blob == nil || b.dec == nil {
 		panic(fmt.Sprintf("c14 harness: container %s does not apply to key class %s", s.Cont, s.Key))
 	}
+	if b.prep == nil {
+		dec := b.dec
+		b.prep = func(blob []byte) any { return blob }
+		b.decP = func(obj any, secret []byte) (any, error) { return dec(obj.([]byte), secret) }
+		b.snap = func(obj any) []byte { return append([]byte{}, obj.([]byte)...) }
+	}
 	return b
+}
+
+// snapPEM serialises a parsed PEM block (type, headers in sorted order, bytes).
+func snapPEM(blk *pem.Block) []byte {
+	out := []byte(blk.Type + "\x00")
+	keys := make([]string, 0, len(blk.Headers))
+	for k := range blk.Headers {
+		keys = append(keys, k)
+	}
+	sort.Strings(keys)
+	for _, k := range keys {
+		out = append(out, k+"="+blk.Headers[k]+"\x00"...)
+	}
+	return append(out, blk.Bytes...)
+}
+
+// envObj is the reusable state of enveloped-key decoding: the caller's bytes
+// and the unwrapping key objects (an *sm2.PrivateKey caches values on use).
+type envObj struct {
+	blob []byte
+	keys map[string]*sm2.PrivateKey
 }
 
 // encryptP8With wraps a PKCS#8 blob into EncryptedPrivateKeyInfo the way
